@@ -8,7 +8,7 @@ C20_calc_rejected_range_ignored C20_calc_range_loop_bound
 C20_calc_stdin_line_fresh C20_calc_stdin_lines_independent C20_calc_stdin_line_eq_cmdline
 C20_distrib_prints_n C20_distrib_rejects C20_distrib_invalid_number
 C20_calc_cpukind_filter C20_calc_cpukind_set C20_calc_cpukind_commutes_fold C20_calc_attr_filters_first C20_calc_default_nodes
-C20_calc_local_memory""".split()]
+C20_calc_local_memory C20_calc_attr_loop_extends C20_calc_attr_conservative C20_calc_best_memattr_values""".split()]
 CHECK_MODULES = ["Hw.Props.C20"]
 TRUSTED = ["the C03/C04/C09/C11 models the calc model is built from (bitmap operators, the three set printers/parsers, covering / "
            "largest / distrib helpers, hwloc_type_sscanf / hwloc_obj_type_snprintf) are tied to the C by their own engines",
